@@ -836,10 +836,12 @@ func vwBudget(r *vfRng, st *vfStats) vfCase {
 		keys = []int{1 + r.n(3)}
 	}
 	pv := uint8(r.pick([]int{1, 2, 5}))
-	s := vwNodeCfg{name: "snd", label: label, keys: keys, vout: true, vin: true, pv: pv, compress: r.chance(30), udp: udp}
+	// the two verification flags are independent (a key roll-out runs with outgoing on, incoming off)
+	s := vwNodeCfg{name: "snd", label: label, keys: keys, vout: !r.chance(20), vin: !r.chance(40), pv: pv, compress: r.chance(30), udp: udp}
 	rc := s
 	rc.name = "rcv"
 	rc.compress = false
+	rc.vin = s.vout && r.chance(70)
 	sm, stap, su := vwNode(s)
 	rm, rtap, ru := vwNode(rc)
 	rx := &vwRx{rm, rtap, ru}
